@@ -187,6 +187,9 @@ def shard(ctx):
 
     prof = StreamProfile(knobs_fn=knobs, script_len=ctx.params["script_len"], op_weights=weights(), templates=templ)
     prof.template_prob = 0.55
+    from ..templates import t_quasi, t_mod_trip, t_shared_iter
+
+    prof.rotation = [t_quasi, t_mod_trip, t_shared_iter, t_quasi]
     run_stream(ctx, prof, [SimplifyMonitor(ctx, ninputs=ctx.params["ninputs"])])
 
 
